@@ -343,10 +343,20 @@ def aux_case(src, asan, idx, seed, tier):
     else:
         e2v.sh([S("misc/e2image"), "-Q", img, f], env=env, timeout=120)
         kind = "qcow2 image"
-        cmds = [("e2image -r from qcow2", [T("misc/e2image"), "-r", f, f + ".raw"])]
+        # "env -i": with an empty environment no earlier library call has failed, errno is 0 when a short read happens
+        cmds = [("e2image -r from qcow2", [T("misc/e2image"), "-r", f, f + ".raw"]),
+                ("e2image -r from qcow2 (empty environment)", ["/usr/bin/env", "-i", "ASAN_OPTIONS=detect_leaks=0:abort_on_error=0:allocator_may_return_null=1", "UBSAN_OPTIONS=print_stacktrace=1",
+                                                              T("misc/e2image"), "-r", f, f + ".raw"])]
     if os.path.exists(f):
         d = bytearray(open(f, "rb").read())
-        if kind == "undo file" and (idx // 2 < len(UNDO_DIRECTED) or r.random() < 0.5):
+        if kind == "qcow2 image" and idx % 4 == 1:
+            # the file ends inside the L1 table, or inside the first L2 table
+            l1_size, l1_off = struct.unpack_from(">IQ", d, 36)
+            l2 = struct.unpack_from(">Q", d, l1_off)[0] & 0x00FFFFFFFFFFFE00
+            cut = l1_off + 4 if (idx // 4) % 2 == 0 else l2 + 16
+            d = d[:cut]
+            desc.append("qcow2 image truncated to %d bytes (%s)" % (cut, "inside the L1 table" if (idx // 4) % 2 == 0 else "inside the first L2 table"))
+        elif kind == "undo file" and (idx // 2 < len(UNDO_DIRECTED) or r.random() < 0.5):
             desc += undo_edit(d, r, UNDO_DIRECTED[idx // 2] if idx // 2 < len(UNDO_DIRECTED) else None)
         else:
           for _ in range(r.randint(1, 6)):
